@@ -193,7 +193,7 @@ def run_split(bib, text: str, how: str = "split"):
 # T3 batch through TLC
 # ---------------------------------------------------------------------------
 def make_case(cid: int, text: str, obs: List[Dict[str, Any]], spans: List[Tuple[int, int]], judge: bool,
-              grammar: bool = False):
+              grammar: bool = False, lib: bool = False):
     cuts = [x for s in spans for x in s]
     toks = bibtok.alpha(text, cuts)
     start_of = {t.s: i + 1 for i, t in enumerate(toks)}
@@ -211,7 +211,7 @@ def make_case(cid: int, text: str, obs: List[Dict[str, Any]], spans: List[Tuple[
             fe.append([a, b])
         ranges.append({"from": a, "to": b, "line": o["line"] if isinstance(o["line"], int) else -1})
     case = {"id": cid, "k": [t.k for t in toks], "w": [t.w for t in toks], "fe": fe if ok else [],
-            "judge": bool(judge and ok), "obs": ranges if ok else [], "g": bool(grammar)}
+            "judge": bool(judge and ok), "obs": ranges if ok else [], "g": bool(grammar), "lib": bool(lib)}
     return case, toks
 
 
@@ -227,7 +227,7 @@ def oracle(cases: List[dict], shards: int = 16):
     return res, v.results
 
 
-def evaluate(bib, texts: List[str], how: str = "split", shards: int = 16, grammar: bool = False):
+def evaluate(bib, texts: List[str], how: str = "split", shards: int = 16, grammar: bool = False, lib: bool = False):
     """Full T3 evaluation of a batch of texts.  Returns (list of per-text dicts, tlc results):
        {"text", "raised", "obs", "exp", "diff": {clause: detail}}"""
     pre = []
@@ -239,9 +239,9 @@ def evaluate(bib, texts: List[str], how: str = "split", shards: int = 16, gramma
             problem, spans = locate(text, obs)
         rec = {"text": text, "raised": raised, "obs": obs, "tiling_problem": problem, "spans": spans}
         if raised is None and problem is None:
-            case, toks = make_case(i, text, obs, spans, judge=True, grammar=grammar)
+            case, toks = make_case(i, text, obs, spans, judge=True, grammar=grammar, lib=lib)
         else:
-            case, toks = make_case(i, text, [], [], judge=False, grammar=grammar)
+            case, toks = make_case(i, text, [], [], judge=False, grammar=grammar, lib=lib)
         rec["toks"] = toks
         cases.append(case)
         pre.append(rec)
@@ -263,5 +263,8 @@ def evaluate(bib, texts: List[str], how: str = "split", shards: int = 16, gramma
                 diff.setdefault("start_line", "TLC: Lines(toks, observed ranges) is false")
         rec["diff"] = diff
         rec["grammar"] = r["rec"]
+        rec["lib"] = r["lib"]
+        if not r["libok"]:
+            raise core.MachineryError("the composed specification violates DupOK (R5) on " + repr(rec["text"][:200]))
         del rec["toks"]
     return pre, tlcs
